@@ -92,6 +92,15 @@ def gen(rnd, idx=0, nfiles=None, ntypes=None, ncmds=None, nevents=None, validato
     return files
 
 
+def events_only(files, idx=0):
+    """the same project without a single command: what is left to generate are the listeners and the payload types"""
+    out = {p: [it for it in its if it.kind != "command"] for p, its in files.items()}
+    if not any(it.kind == "event" for its in out.values() for it in its):
+        first = sorted(out)[0]
+        out[first] = out[first] + [Item("event", "only_event_%d" % idx, "pub fn only_event_%d(app: AppHandle, n: u32) {\n    app.emit(\"only-event-%d\", n).unwrap();\n}\n\n" % (idx, idx))]
+    return out
+
+
 def render(files, order=None):
     """-> list of (path, text) in the given creation order"""
     paths = order or list(files)
